@@ -76,6 +76,7 @@ def consts():
     os.remove('/tmp/_c.c'); os.remove('/tmp/_c')
     return res
 
+ARM_PRIVATE = {'breakpoint': 0x0f0001, 'cacheflush': 0x0f0002, 'usr26': 0x0f0003, 'usr32': 0x0f0004, 'set_tls': 0x0f0005, 'get_tls': 0x0f0006}
 tables = {
     'x86_64': {
         'kernel_uapi_6.1': hdr(INC + 'x86_64-linux-gnu/asm/unistd_64.h'),
@@ -90,6 +91,9 @@ tables = {
     'arm': {
         'go_syscall': go_sys(GOROOT + '/src/syscall/zsysnum_linux_arm.go'),
         'x_sys_unix_0.48': go_sys(XSYS + 'zsysnum_linux_arm.go'),
+        # the ARM private calls: no header of this machine and neither Go table lists them; copied by hand from
+        # arch/arm/include/uapi/asm/unistd.h (__ARM_NR_BASE = __NR_SYSCALL_BASE + 0x0f0000, EABI base 0)
+        'kernel_arm_unistd_h_private_calls': ARM_PRIVATE,
     },
     'aarch64': {
         'kernel_uapi_6.1_generic': generic(INC + 'asm-generic/unistd.h'),
